@@ -324,6 +324,20 @@ func check(c Case) (o h.Outcome) {
 	o.NonTrivial = len(c.Ops) >= 2 && total >= 20
 	o.Class("goroutines:%d", len(c.Ops))
 	o.Class("procs:%d", c.Procs)
+	// an anchor that does not go through the library: the upper-case body satisfies the patterns under
+	// the case-insensitive regex implementation only, whatever ran before (document validation has
+	// already compiled every pattern with the default implementation)
+	for g := range c.Ops {
+		for i, op := range c.Ops[g] {
+			if strings.HasPrefix(op.Kind, "visit") && op.Variant%len(shared.bodies()) == len(shared.bodies())-1 {
+				wantValid := op.Kind == "visit-ci"
+				if strings.HasPrefix(want[g][i], "visit-valid") != wantValid {
+					o.Fail("per-call-option-ignored:"+op.Kind, "operation %+v run sequentially returned %q; the upper-case body matches the patterns exactly when the call brings the case-insensitive regex implementation", op, trunc(want[g][i]))
+					return
+				}
+			}
+		}
+	}
 	for g := range c.Ops {
 		for i := range c.Ops[g] {
 			if got[g][i] != want[g][i] {
